@@ -144,7 +144,7 @@ func c08Trigger(c c08CloseCase) (pre []byte, trigger []byte, script harness.Scri
 	case "longline":
 		trigger = []byte(strings.Repeat("a", 80) + "\r\n")
 	case "timeout":
-		cfg.ReadTimeoutMs = 30
+		cfg.ReadTimeoutMs = 100
 	case "panic-newsession":
 		pre = nil
 		script.NewSession = []harness.Decision{pn}
@@ -344,7 +344,7 @@ var c08SuffixLines = []string{
 
 func c08GenClose(t *rapid.T) c08CloseCase {
 	c := c08CloseCase{Mode: rapid.IntRange(0, 2).Draw(t, "mode")}
-	c.Reason = rapid.SampledFrom([]string{"quit", "quit", "errors", "errors", "longline", "timeout", "panic-newsession", "panic-mail", "panic-rcpt", "panic-data", "panic-bdat", "panic-bdat-early", "panic-bdat-midway"}).Draw(t, "reason")
+	c.Reason = rapid.SampledFrom([]string{"quit", "quit", "errors", "errors", "longline", "longline", "quit", "errors", "timeout", "panic-newsession", "panic-mail", "panic-rcpt", "panic-data", "panic-bdat", "panic-bdat-early", "panic-bdat-midway"}).Draw(t, "reason")
 	g := greetWord(c.Mode != 0) + " cli"
 	switch rapid.IntRange(0, 4).Draw(t, "prefix") {
 	case 0:
